@@ -60,9 +60,10 @@ func (p *Plan) NOps() int {
 
 type mix struct{ store, load, del, ln, dump int }
 
-func genOps(r *detsim.Rand, client, n, nkeys int, m mix, loadBeforeStore bool) []Op {
+func genOps(r *detsim.Rand, client, n, nkeys int, m mix, loadBeforeStore bool, sameVals ...bool) []Op {
 	ops := make([]Op, 0, n)
 	vn := 0
+	last := map[int]string{}
 	for len(ops) < n {
 		k := r.Intn(nkeys)
 		switch r.Weighted([]int{m.store, m.load, m.del, m.ln, m.dump}) {
@@ -71,7 +72,12 @@ func genOps(r *detsim.Rand, client, n, nkeys int, m mix, loadBeforeStore bool) [
 				ops = append(ops, Op{K: OpLoad, Key: r.Intn(nkeys)})
 			}
 			vn++
-			ops = append(ops, Op{K: OpStore, Key: k, Val: fmt.Sprintf("v%d.%d", client, vn)})
+			val := fmt.Sprintf("v%d.%d", client, vn)
+			if len(sameVals) > 0 && sameVals[0] && last[k] != "" && r.Chance(1, 6) {
+				val = last[k] // the value this client stored under the key last time: an "unchanged" re-store must still refresh the entry (seeded C09r)
+			}
+			last[k] = val
+			ops = append(ops, Op{K: OpStore, Key: k, Val: val})
 		case 1:
 			ops = append(ops, Op{K: OpLoad, Key: k})
 		case 2:
@@ -238,7 +244,7 @@ func GenC09(r *detsim.Rand, tier string) *Plan {
 		n = 2*p.Cap + r.Intn(2*p.Cap)
 	}
 	m, lbs := genMix(r, true)
-	p.Clients = [][]Op{genOps(r, 0, n, p.NKeys, m, lbs)}
+	p.Clients = [][]Op{genOps(r, 0, n, p.NKeys, m, lbs, true)} // single client: values may repeat (every written value is unique in the concurrent shapes, where reads must be attributable to one write)
 	p.MixedKeys = r.Chance(1, 4)
 	if r.Chance(1, 6) {
 		p.Bystander = 1
